@@ -634,7 +634,7 @@ func Matrix() []*Program {
 	// calls: kind x value x gas x target
 	for _, kind := range []byte{0xf1, 0xf2, 0xf4, 0xfa} {
 		for _, val := range []uint64{0, 1, 1 << 40} {
-			for _, gasArg := range []int64{-1, 0, 2300, 100000} {
+			for _, gasArg := range []int64{-1, 0, 2300, 100000, -2, -3, -4} { // -2, -3, -4: 2^64-1, 2^64, 2^256-1 (an upper bound only, from EIP-150 on)
 				for _, tgt := range []common.Address{CB, NX, EO, CA, common.BytesToAddress([]byte{2}), common.BytesToAddress([]byte{4}), common.BytesToAddress([]byte{9})} {
 					if (kind == 0xf4 || kind == 0xfa) && val != 0 {
 						continue
@@ -645,16 +645,40 @@ func Matrix() []*Program {
 						c.pushN(val)
 					}
 					c.pushAddr(tgt)
-					if gasArg < 0 {
+					switch {
+					case gasArg == -1:
 						c.op(0x5a)
-					} else {
+					case gasArg == -2:
+						c.push(cw(10))
+					case gasArg == -3:
+						c.push(cw(11))
+					case gasArg == -4:
+						c.push(cw(13))
+					default:
 						c.pushN(uint64(gasArg))
 					}
 					c.op(kind).pushN(32).op(0x52).op(0x3d).pushN(64).op(0x52).pushN(96).pushN(0).op(0xf3)
 					mk("matrix-call", c.b)
 					out[len(out)-1].Gas = 300_000
+					if gasArg < -1 && val == 0 && (tgt == CB || tgt == NX) {
+						out[len(out)-1].AllForks = true // the forwarding rule changes with EIP-150
+					}
 				}
 			}
+		}
+	}
+	// CREATE / CREATE2 from memory of every size class around the init-code limit (EIP-3860: 49152 bytes, from Shanghai on only),
+	// on every fork; the address word, the gas left after it and the return-data size are observable
+	for _, op := range []byte{0xf0, 0xf5} {
+		for _, sz := range []uint64{0, 1, 32, 33, 24576, 24577, 49152, 49153, 65536} {
+			c := &code{}
+			if op == 0xf5 {
+				c.pushN(3)
+			}
+			c.pushN(sz).pushN(0).pushN(0).op(op).pushN(0).op(0x52).op(0x5a).pushN(32).op(0x52).op(0x3d).pushN(64).op(0x52).pushN(96).pushN(0).op(0xf3)
+			mk("matrix-create", c.b)
+			out[len(out)-1].Gas = 5_000_000
+			out[len(out)-1].AllForks = true
 		}
 	}
 	out = append(out, pairPrograms()...)
